@@ -27,6 +27,24 @@ NOT_APPLICABLE = {p: 'check under construction in this session; not claimed unti
                   for p in ['C%02d' % i for i in range(1, 21)]}
 
 PROPS = {
+    'C01': dict(
+        level='exploration',
+        level_text="Generated histories of persisted publishes under connection, connect and Persistence faults against the real "
+                   "client and a conforming broker model; invariants over the totally ordered event log after every step plus a "
+                   "drain phase in a healthy environment (bounded liveness with a hang oracle). Sampling of a fault x schedule "
+                   "space; no absence claim.",
+        technique='stateful property-based testing (rapid) with fault injection; reference broker model + event-log invariants as oracle',
+        rule="rapid state machine over {pub1/pub2 (retain, topic and payload classes), releaseAcks(n), armWrite(offset; "
+             "timeout-with-progress|timeout|reset), armRead(offset; eof|reset|stall|expiry-with-progress), breakNow, loseTail, "
+             "dialScript(dial-error|refuse|malformed CONNACK|EOF in handshake), storeFault(Save|Delete|Load), parkResend + "
+             "releaseWrite (publish while mid-resend), appStep} with AtLeastOnceMax/ExactlyOnceMax from {1,2,3,5,16}, then drain. "
+             "Non-trivial: at least one accepted message was retransmitted on a later connection (resend block verified) or a "
+             "store fault was injected while messages were pending, and everything completed in drain; distinct = distinct "
+             "canonical action scripts.",
+        assumptions=ASSUME_SIM,
+        quick=dict(engines=[rapid('^TestC01', 1600, steps=40)]),
+        thorough=dict(engines=[rapid('^TestC01', 40000, shards=14, steps=70, timeout=1500)]),
+    ),
     'C08': dict(
         level='exploration',
         level_text="Generated histories of concurrent requests and write faults against the real client; every byte the client "
@@ -43,3 +61,11 @@ PROPS = {
         thorough=dict(engines=[rapid('^TestC08', 40000, shards=14, steps=60, timeout=1500)]),
     ),
 }
+
+# --- pure checks (checks_conf_pure.py): C20 final; C14B and C15P are temporary entries for the pure halves of C14/C15 ---
+from checks_conf_pure import C20, C14B_ENGINES_QUICK, C14B_ENGINES_THOROUGH, C14B_RULE, C15_ENGINES_QUICK, C15_ENGINES_THOROUGH, C15_RULE  # noqa: E402
+PROPS['C20'] = C20
+PROPS['C14B'] = dict(level='exploration', level_text='temporary entry: pure half of C14 (classifiers)', technique='property-based testing (rapid), differential against errors.Is', rule=C14B_RULE, assumptions=[], quick=dict(engines=C14B_ENGINES_QUICK), thorough=dict(engines=C14B_ENGINES_THOROUGH))
+PROPS['C15P'] = dict(level='exploration', level_text='temporary entry: pure half of C15 (record codec)', technique='property-based testing (rapid) with per-record exhaustive single-byte damage', rule=C15_RULE, assumptions=[], quick=dict(engines=C15_ENGINES_QUICK), thorough=dict(engines=C15_ENGINES_THOROUGH))
+
+from checks_conf_c19 import C19; PROPS['C19'] = C19  # noqa: E402
